@@ -25,6 +25,7 @@ theorem cinv_step {s s' : State} {r : Role} {l : Label} (hc : CInv s) (h : step 
   | park => exact cinv_park hc h
   | spurious => exact cinv_spurious hc h
   | spin => exact cinv_spin hc h
+  | deadline => exact cinv_deadline hc h
 
 theorem rinv_step {s s' : State} {r : Role} {l : Label} (hc : CInv s) (hi : RInv s) (h : step s r l = some s') : RInv s' := by
   cases l with
@@ -49,6 +50,7 @@ theorem rinv_step {s s' : State} {r : Role} {l : Label} (hc : CInv s) (hi : RInv
   | park => exact rinv_park hi h
   | spurious => exact rinv_spurious hi h
   | spin => exact rinv_spin hi h
+  | deadline => exact rinv_deadline hi h
 
 theorem reach_cinv {cap : Nat} {pp pc : List Op} {s : State} (h : Reach cap pp pc s) : CInv s := by
   induction h with
